@@ -1,6 +1,7 @@
 import GB.Base.Proto
 import GB.C04.Spec
 import GB.C04.Refine
+import GB.C04.StageOracle
 import GB.C04.WF
 /-
   C04 driver: parses one case line of harness/c04 (schema, binding, body, path/query parameters and the
@@ -353,12 +354,34 @@ def judge (c : Case) (orc : Oracle) (stream : Bool) (dec : Dec) (impl : Res) : S
         | some (.error _) => some s!"accepted a request the binding rules reject: spec={specName sp}"
         | none => none
   -- does C04_refines / C04_order_independent cover this request? (counted in the branch histogram)
-  let thm := match srcsOf c.sch c.root (allCalls c.sch c.root c.bd c.rq) with
-    | some srcs => pairwiseUnrelated (srcs.map (·.p))
-    | none => false
+  -- Inside the theorem's hypotheses the case is judged by `stageExpect`, the executable oracle PROVED to be the
+  -- declarative StageSpec (`C04_stage_oracle_accepts/_rejects/_defined`); `expect` (above) IS `stageExpect` there
+  -- (`C04_expect_in_domain`), the per-field rules `expectRules` must agree with it when both speak.
+  let st := stageExpect c.sch orc c.root c.bd dec c.rq
+  let thm := st.isSome
+  let stageViol : Option String :=
+    match st, impl with
+    | some (.ok l), .ok m =>
+      if renderLeaves m == renderLeaves l then none
+      else some s!"stage-spec: populated fields differ from StageSpec (C04_refines): spec={specName st}"
+    | some (.ok _), .err e => some s!"stage-spec: rejected a request StageSpec (C04_refines) accepts: impl=err:{e} spec={specName st}"
+    | some (.error se), .ok _ => some s!"stage-spec: accepted a request StageSpec (C04_refines) rejects: spec=err:{errName se}"
+    | some (.error se), .err e => if e == errName se then none else some s!"stage-spec: wrong error impl=err:{e} spec=err:{errName se}"
+    | _, _ => none
+  let oraclesDisagree : Bool :=
+    match st, expectRules c.sch orc c.root c.bd dec c.rq with
+    | some (.ok l), some (.ok l') => renderLeaves l != renderLeaves l'
+    | some (.error e), some (.error e') => !(e == e')
+    | some (.ok _), some (.error _) => true
+    | some (.error _), some (.ok _) => true
+    | _, _ => false
+  let specViol := match specViol with
+    | some w => some w
+    | none => stageViol
   match specViol with
   | some why => s!"VIOL {why} model={showRes (transcode c.sch orc c.root c.bd dec c.rq)}"
   | none =>
+    if oraclesDisagree then s!"BAD the two specification oracles disagree: expectRules={specName (expectRules c.sch orc c.root c.bd dec c.rq)} stageExpect={specName st}" else
     if !wfInputs c.sch orc c.root c.rq then "BAD model inputs not well formed (dangling reference, illegal map key kind or oracle miss)"
     else
     let models := (orders c.rq).map (fun rq => transcode c.sch orc c.root c.bd dec rq)
@@ -610,7 +633,7 @@ def pfSchema : Schema := { enums := [pfEnum], msgs := [] }
 def pfKind (k : String) : Option (Sum Kind Name) :=
   match k with
   | "enum" => some (.inl (.enum (ascii "PE")))
-  | "Int64Value" | "Int32Value" | "UInt64Value" | "UInt32Value" | "BoolValue" | "StringValue" | "BytesValue" | "FieldMask" => some (.inr (wkt k))
+  | "Int64Value" | "Int32Value" | "UInt64Value" | "UInt32Value" | "BoolValue" | "StringValue" | "BytesValue" | "FieldMask" | "Duration" => some (.inr (wkt k))
   | other => (kindOf other []).map .inl
 
 def noOracle : Oracle := fun _ _ => none
@@ -626,6 +649,8 @@ def handlePF (k : String) (text : Bytes) (out : List String) : String :=
     let o := String.intercalate " " out
     if o == m then (if m == "err" then "OK b=pf-err" else "OK nt b=pf-ok") else s!"VIOL text form of {k}: impl={o} model/spec={m}"
   | some (.inr ref) =>
+    -- Duration texts whose fraction Go rounds through float64 are outside the exact model (oracle territory in tc/ts)
+    if ref == wDuration && (parseDurationGo text).isNone then "OK b=pf-duration-float-rounding" else
     match parseMessage noOracle ref text, out with
     | .error _, ["err"] => "OK b=pf-err"
     | .ok es, "okm" :: rest =>
